@@ -164,7 +164,7 @@ def eval_prog(term, ops, st, subs, repair=()):
     return "final", None, m
 
 
-def run_differential(progs, base_il_defs: dict, base_c_subs: dict, nstates: int, seed: int, extra_states=None,
+def run_differential(progs, base_il_defs: dict, base_c_subs: dict, nstates: int, seed: int,
                      clang_check=False, keep_states=False, repair=()):
     """Returns (results: list[ProgResult], info dict). progs: list[Prog]."""
     info = {"programs": len(progs), "selftest_ok": None, "c_rewritten": [], "c_invalid": {}}
@@ -184,18 +184,20 @@ def run_differential(progs, base_il_defs: dict, base_c_subs: dict, nstates: int,
     info["selftest_failures"] = getattr(orc, "selftest_failures", [])[:5]
     info["c_rewritten"] = orc.rewritten
     info["c_invalid"] = {progs[i].name: why for i, why in orc.bad.items()}
-    rng = random.Random(seed)
     cases = []
     for idx, p in enumerate(progs):
         if idx in orc.bad:
             results[idx].c_invalid = orc.bad[idx]
             continue
         ops = orc.oplists[idx]
+        # states depend on (seed, program name) only, so a re-run of one program sees the same states
+        rng = random.Random(f"{seed}:{p.name}")
         sts = []
-        for s in range(nstates):
+        for s in range(p.extra.get("nstates", nstates)):
             sts.append(CO.gen_state(rng, ops))
-        if extra_states and extra_states.get(idx):
-            sts.extend(extra_states[idx](rng, ops))
+        fn = p.extra.get("states_fn")
+        if fn is not None:
+            sts.extend(fn(rng, ops))
         for st in sts:
             cases.append((idx, st))
     cres = orc.run(cases)
